@@ -299,6 +299,12 @@ func main() {
 	addKey("aggregated-a+b", ab, aggPriv, aggPriv.PublicKey())
 	negA := new(big.Int).Sub(refbls.R, a)
 	addKey("r-a", negA, mkPriv(negA), mkPriv(negA).PublicKey())
+	// the key b held as a non-normalised projective point (as RemoveBLSPublicKeys returns it)
+	if agg2, err := crypto.AggregateBLSPublicKeys([]crypto.PublicKey{aPriv.PublicKey(), bPriv.PublicKey()}); err == nil {
+		if bj, err := crypto.RemoveBLSPublicKeys(agg2, []crypto.PublicKey{aPriv.PublicKey()}); err == nil {
+			addKey("b-projective-from-RemoveBLSPublicKeys", b, bPriv, bj)
+		}
+	}
 	if run.Thorough() {
 		addKey("2", big.NewInt(2), mkPriv(big.NewInt(2)), mkPriv(big.NewInt(2)).PublicKey())
 		cPriv, c := gen(2)
